@@ -420,14 +420,19 @@ Proof.
     split; [cbn [fst]; lia|]. split; assumption.
 Qed.
 
-(** sexp_sub: the FIX_FIX case is exact only when the difference fits ("VM catches this case") *)
-Lemma num_sub_spec a b : wf_num a -> wf_num b ->
-  (is_fix a = true -> is_fix b = true -> fits_fix (nval a - nval b) = true) ->
+(** sexp_sub: exact for ALL operand pairs (round 2: the FIX_FIX case hands over to bignums when the
+    difference does not fit; before the repair it was the raw wrapping sexp_fx_sub) *)
+Lemma num_sub_total_spec a b : wf_num a -> wf_num b ->
   nval (num_sub a b) = nval a - nval b /\ canon (num_sub a b) /\ wf_num (num_sub a b).
 Proof.
-  intros Ha Hb Hff. destruct a as [x|sa da], b as [y|sb db]; cbn [wf_num is_fix nval] in *; unfold num_sub.
-  - specialize (Hff eq_refl eq_refl). rewrite wrap_fix_id by assumption. cbn [nval wf_num].
-    split; [reflexivity|]. split; [apply canon_fix; assumption|assumption].
+  intros Ha Hb. destruct a as [x|sa da], b as [y|sb db]; cbn [wf_num is_fix nval] in *; unfold num_sub.
+  - destruct ((x - y <? FIXMIN) || (x - y >? FIXMAX)) eqn:Hov.
+    + destruct (fixnum_to_bignum_spec x (fits_abs_lt_B x Ha)) as [Hwx Hvx].
+      destruct (fixnum_to_bignum_spec y (fits_abs_lt_B y Hb)) as [Hwy Hvy].
+      destruct (bignum_sub_spec _ _ Hwx Hwy) as [Hv2 Hw2].
+      destruct (normalize_big_spec _ Hw2) as (Hn1 & Hn2 & Hn3). rewrite Hn1, Hv2, Hvx, Hvy. tauto.
+    + assert (fits_fix (x - y) = true) by (unfold fits_fix; lia).
+      cbn [nval wf_num]. split; [reflexivity|]. split; [apply canon_fix; assumption|assumption].
   - destruct (fixnum_to_bignum_spec x (fits_abs_lt_B x Ha)) as [Hw Hv].
     destruct (bignum_sub_spec (sb, db) _ Hb Hw) as [Hv2 Hw2].
     destruct (bignum_sub (sb, db) (fixnum_to_bignum x)) as [sr dr] eqn:E. cbn [big_num fst snd negate].
@@ -443,6 +448,13 @@ Proof.
     destruct (normalize_big_spec _ Hw2) as (Hn1 & Hn2 & Hn3). rewrite Hn1, Hv2. unfold bval. cbn [fst snd].
     split; [lia|tauto].
 Qed.
+
+(** the statement of round 1 (with its now superfluous premise), kept for the proofs that use it *)
+Lemma num_sub_spec a b : wf_num a -> wf_num b ->
+  (is_fix a = true -> is_fix b = true -> fits_fix (nval a - nval b) = true) ->
+  nval (num_sub a b) = nval a - nval b /\ canon (num_sub a b) /\ wf_num (num_sub a b).
+Proof. intros Ha Hb _. apply num_sub_total_spec; assumption. Qed.
+
 
 (** VM fast paths: exact for ALL operand pairs, including the overflow branch *)
 Lemma vm_add_spec a b : wf_num a -> wf_num b ->
